@@ -1266,8 +1266,8 @@ func (m *membershipAllower) membershipAllowedSelf() error { // nolint: gocyclo
 		}
 
 		// A user that is not in the room is allowed to join if the room
-		// join rules are "public".
-		if m.oldMember.Membership == spec.Leave && joinRule == spec.Public {
+		// join rules are "public", also if they knocked before.
+		if (m.oldMember.Membership == spec.Leave || m.oldMember.Membership == spec.Knock) && joinRule == spec.Public {
 			return nil
 		}
 
